@@ -77,6 +77,11 @@ def writeBytes (k : Kind) (v : Val) : Bytes := (toItem k v).enc
 def setKey (acc : List (Int × Val)) (k : Int) (v : Val) : List (Int × Val) :=
   if acc.any (·.1 == k) then acc.map (fun e => if e.1 == k then (k, v) else e) else acc ++ [(k, v)]
 
+/-- the members of a struct in declaration order: a C++ struct has one slot per member, so the
+    order in which the members arrived in the file is not part of what was read -/
+def canon (fs : List Field) (ms : List (Int × Val)) : List (Int × Val) :=
+  fs.filterMap fun f => ms.find? (·.1 == f.key)
+
 mutual
 /-- `read_<kind>()` -/
 def readVal : Nat → Kind → Prog Val
@@ -93,7 +98,7 @@ def readVal : Nat → Kind → Prog Val
   | fuel+1, .struct fs => do
     let (len, indef) ← readMapStart
     let ms ← readFields fuel fs len indef []
-    if fs.all (fun f => !f.required || ms.any (·.1 == f.key)) then pure (.record ms) else .throw .decoder
+    if fs.all (fun f => !f.required || ms.any (·.1 == f.key)) then pure (.record (canon fs ms)) else .throw .decoder
 /-- the loop of `CdnsDecoder::read_array` -/
 def readElems : Nat → Kind → Nat → Bool → List Val → Prog (List Val)
   | 0, _, _, _, _ => .throw .decoder
@@ -127,6 +132,88 @@ def readFields : Nat → List Field → Nat → Bool → List (Int × Val) → P
         let t ← peekType
         if t = tBreak then do readBreak; pure acc else body
       else body
+end
+
+/-! ### what an encoding denotes under a schema (RFC 8949 data model, independent of the byte syntax)
+
+  `denote k i` is the value the item `i` stands for when read as kind `k`: head widths, definite vs
+  indefinite length and chunking play no role, map members are looked up by key (any order), members
+  with keys the schema does not know are ignored whatever their value is.  `Props.C08.read_denotes`
+  proves that the byte-level reader computes exactly this function on every well-formed encoding. -/
+
+/-- the integer a key/integer item stands for in the API's `int64_t` (saturating outside it) -/
+def intOf : Item → Option Int
+  | .uint _ n => some (if n > int64Max then (int64Max : Int) else (n : Int))
+  | .nint _ n => some (if n > int64Max then -(int64Max : Int) - 1 else -1 - (n : Int))
+  | _ => none
+
+mutual
+def denote : Kind → Item → Option Val
+  | .uint bits, .uint _ n => some (.num ((n % 2 ^ bits : Nat) : Int))
+  | .int64, .uint w n => (intOf (.uint w n)).map .num
+  | .int64, .nint w n => (intOf (.nint w n)).map .num
+  | .tstr, .tstr _ b => some (.str b)
+  | .tstr, .tstrI cs => some (.str (chunksVal cs))
+  | .bstr, .bstr _ b => some (.str b)
+  | .bstr, .bstrI cs => some (.str (chunksVal cs))
+  | .bool, .simple n => if n = 20 then some (.bool false) else if n = 21 then some (.bool true) else none
+  | .arr k, .arr _ items => (denoteList k items).map .list
+  | .arr k, .arrI items => (denoteList k items).map .list
+  | .struct fs, .map _ items =>
+    match denotePairs fs items [] with
+    | some ms => if fs.all (fun f => !f.required || ms.any (·.1 == f.key)) then some (.record (canon fs ms)) else none
+    | none => none
+  | .struct fs, .mapI items =>
+    match denotePairs fs items [] with
+    | some ms => if fs.all (fun f => !f.required || ms.any (·.1 == f.key)) then some (.record (canon fs ms)) else none
+    | none => none
+  | _, _ => none
+def denoteList : Kind → List Item → Option (List Val)
+  | _, [] => some []
+  | k, i :: is =>
+    match denote k i, denoteList k is with
+    | some v, some vs => some (v :: vs)
+    | _, _ => none
+def denotePairs : List Field → List Item → List (Int × Val) → Option (List (Int × Val))
+  | _, [], acc => some acc
+  | _, [_], _ => none
+  | fs, kI :: vI :: rest, acc =>
+    match intOf kI with
+    | none => none
+    | some key =>
+      match fs.find? (fun f => f.key == key) with
+      | some f =>
+        match denote f.kind vI with
+        | some v => denotePairs fs rest (setKey acc key v)
+        | none => none
+      | none => denotePairs fs rest acc
+end
+
+/-! ### executable check that a value is one the struct can hold (`Proofs.ConformsB`: sound for `Conforms`) -/
+
+mutual
+def conformsB : Kind → Val → Bool
+  | .uint bits, .num n => decide (0 ≤ n) && decide (n < 2 ^ bits) && decide (bits ≤ 64)
+  | .int64, .num n => decide (-(2 ^ 63 : Int) ≤ n) && decide (n < 2 ^ 63)
+  | .tstr, .str b => decide (b.length < 2 ^ 64) && b.all (fun x => decide (x < 256))
+  | .bstr, .str b => decide (b.length < 2 ^ 64) && b.all (fun x => decide (x < 256))
+  | .bool, .bool _ => true
+  | .arr k, .list vs => decide (vs.length < 2 ^ 64) && conformsListB k vs
+  | .struct fs, .record ms =>
+    decide (ms.length < 2 ^ 64) && conformsPairsB fs ms && decide ((ms.map (·.1)).Nodup) &&
+    (fs.all fun f => !f.required || ms.any (·.1 == f.key)) &&
+    decide ((fs.map (·.key)).Nodup) && decide ((ms.map (·.1)).Sublist (fs.map (·.key)))
+  | _, _ => false
+def conformsListB : Kind → List Val → Bool
+  | _, [] => true
+  | k, v :: vs => conformsB k v && conformsListB k vs
+def conformsPairsB : List Field → List (Int × Val) → Bool
+  | _, [] => true
+  | fs, (key, v) :: ms =>
+    decide (-(2 ^ 63 : Int) ≤ key) && decide (key < 2 ^ 63) &&
+    (match fs.find? (fun f => f.key == key) with
+      | some f => conformsB f.kind v
+      | none => false) && conformsPairsB fs ms
 end
 
 end CdnsVerif.Model.Schema
